@@ -226,7 +226,10 @@ impl Hierarchy {
     pub fn all_superstates(&self) -> Vec<Ident> {
         self.lookup
             .keys()
-            .map(|k| syn::Ident::new(k, proc_macro2::Span::call_site()))
+            .map(|k| match k.strip_prefix("r#") {
+                Some(bare) => syn::Ident::new_raw(bare, proc_macro2::Span::call_site()),
+                None => syn::Ident::new(k, proc_macro2::Span::call_site()),
+            })
             .collect()
     }
 }
